@@ -61,6 +61,13 @@ func presetFor(c *Ctx, id string, i int) *HistOpts {
 		o.Blocks = 60
 		o.Gen.Evidence = 60
 		o.Gen.NVal = 2 + rng.Intn(5)
+	case "C17":
+		o.Gen.EVM, o.UseRef = true, true
+		w["deploy"], w["call"], w["xfer2contract"] = 12, 60, 12
+		w["transfer"], w["stake"], w["delegate"], w["unstake"], w["withdraw"], w["proposal"], w["vote"] = 15, 5, 5, 4, 4, 0, 0
+		o.Gen.InvalidPct = 10
+		o.Gen.MaxTx = 12
+		o.Gen.Evidence, o.Gen.Absent = 0, 0
 	case "C16":
 		o.Gen.InvalidPct = 40
 		w["proposal"], w["vote"] = 10, 25
@@ -99,12 +106,8 @@ func modelCheck(id string) checkFn {
 }
 
 func init() {
-	for _, id := range []string{"C02", "C04", "C10", "C11", "C12", "C13", "C14", "C15", "C16"} {
+	for _, id := range []string{"C02", "C04", "C10", "C11", "C12", "C13", "C14", "C15", "C16", "C17"} {
 		checks[id] = modelCheck(id)
 	}
 }
 
-func (g *Gen) draftEVM(kind string, h int64, sh *MState, P *DParams, price *big.Int, fund []*Key,
-	mk func(typ int32, k *Key, to []byte, amt *big.Int, pl rctypes.ITrxPayload, label string) *txDraft) *txDraft {
-	return nil
-}
